@@ -202,6 +202,19 @@ OrderProg(kind, va, vb, X, Y) ==
       sums == {[op |-> "sum", kind |-> kind, regs |-> r] : r \in {<<>>, <<1>>, <<1, 2>>, <<2, 1, 2>>, <<1, 2, 1, 2>>}}
   IN [key |-> "order/" \o kind \o "/" \o FStr(va) \o "/" \o FStr(vb) \o ToString(X) \o ToString(Y), leaves |-> leaves,
       code |-> pre \o SetToSeq(cmp \cup rem \cup un \cup ident \cup sums)]
+\* comparisons where a value is NaN: every ordering is false and != is true, as for floats - through the core operators
+\* (bare and wrapped, number / float in both positions) and through the Python-facing comparison methods
+\* registers: 1 kind(NaN)  2 kind(1)  3 F(NaN)  4 F(1); 5..8 their wrap-copies
+NanProg(kind) ==
+  LET nan == FOfStr("NaN")
+      leaves == << Leaf(kind, 1, nan, <<"a">>), Leaf(kind, 2, FOfInt(1), <<"a">>), LeafF(nan), LeafF(FOfInt(1)) >>
+      wraps == [i \in 1..4 |-> [op |-> "wrap", a |-> i]]
+      cmp == {Ins2(op, a, b) : op \in {"lt", "le", "gt", "ge", "eq", "ne"}, a \in 1..4, b \in 1..4}
+             \cup {Ins2(op, a, b) : op \in {"lt", "le", "gt", "ge", "eq", "ne"}, a \in 5..8, b \in 5..8}
+             \cup {Ins2(op, a, b) : op \in {"lt", "le", "gt", "ge", "eq", "ne"}, a \in 5..8, b \in {3, 4}}
+             \cup {Ins2(op, a, b) : op \in {"lt", "le", "gt", "ge", "eq", "ne"}, a \in {3, 4}, b \in 5..8}
+      py == {[op |-> "py", name |-> n, a |-> a, b |-> b] : n \in {"__eq__", "__lt__", "__le__", "__gt__", "__ge__"}, a \in {1, 2}, b \in 1..4}
+  IN [key |-> "order/nan/" \o kind, leaves |-> leaves, code |-> wraps \o SetToSeq(cmp \cup py)]
 OrderLayouts == {<<<<"a", "b">>, <<"a", "b">>>>, <<<<"a", "b">>, <<"b", "a">>>>, <<<<"a">>, <<"b", "c">>>>, <<<<"a", "b", "c">>, <<"b">>>>, <<<<>>, <<"a">>>>}
 \* quotients beyond the 32-bit integers (a truncation done through an integer cast saturates there)
 Big == FMul(FOfInt(100000), FOfInt(100000))
@@ -257,7 +270,7 @@ TailProg(kind) ==
 TailProgs == {TailProg("D1"), TailProg("D2")}
 
 Family == IOEnv.FAMILY
-Out == CASE Family = "layout" -> LayoutProgs [] Family = "read" -> ReadProgs [] Family = "kinds" -> KindProgs [] Family = "order" -> OrderProgs \cup {SumCritProg("D1"), SumCritProg("D2")} [] Family = "py" -> PyProgs [] Family = "tails" -> TailProgs
+Out == CASE Family = "layout" -> LayoutProgs [] Family = "read" -> ReadProgs [] Family = "kinds" -> KindProgs [] Family = "order" -> OrderProgs \cup {SumCritProg("D1"), SumCritProg("D2"), NanProg("D1"), NanProg("D2")} [] Family = "py" -> PyProgs [] Family = "tails" -> TailProgs
 ASSUME ndJsonSerialize(IOEnv.OUT, SetToSeq(Out))
 ASSUME PrintT(<<"GEN", Family, Cardinality(Out)>>)
 VARIABLE x
